@@ -46,7 +46,23 @@ type opSpec struct {
 }
 
 var c20Ops = []opSpec{{"stat", fxpStat}, {"open", fxpOpen}, {"readlink", fxpReadlink}, {"readdir", fxpReaddir}, {"rename", fxpRename},
-	{"read8", fxpRead}, {"statvfs", fxpExtended}, {"readconc", fxpRead}, {"writeto", fxpRead}}
+	{"read8", fxpRead}, {"statvfs", fxpExtended}, {"readconc", fxpRead}, {"writeto", fxpRead},
+	// operations the client composes from several requests, or whose reply it only inspects for a status: the scripted reply
+	// goes to the request named here, every other request gets a well-formed answer (REMOVE: a failure status, so that
+	// Client.Remove goes on to RMDIR). Oracle only: no model of these call sequences is compared.
+	{"remove", fxpRmdir}, {"removefirst", fxpRemove}, {"mkdirall", fxpStat}, {"mkdirallmk", fxpMkdir}, {"removeall", fxpLstat},
+	{"realpath", fxpRealpath}, {"mkdir", fxpMkdir}, {"symlink", fxpSymlink}, {"chmod", fxpSetstat}, {"truncatefile", fxpFsetstat},
+	{"posixrename", fxpExtended}, {"lstat", fxpLstat}, {"fstat", fxpFstat}, {"create", fxpOpen}, {"glob", fxpOpendir}}
+
+// c20Compound: operations that are not compared with the model (only crash / hang / follow-up / Close / allocation are judged)
+func c20Compound(op string) bool {
+	switch op {
+	case "readconc", "writeto", "remove", "removefirst", "mkdirall", "mkdirallmk", "removeall", "realpath", "mkdir", "symlink", "chmod",
+		"truncatefile", "posixrename", "lstat", "fstat", "create", "glob":
+		return true
+	}
+	return false
+}
 
 func validAttrsBody() []byte {
 	return (&rb{}).u32(0xf).u64(24).u32(1).u32(2).u32(0o100644).u32(3).u32(4).b
@@ -116,8 +132,18 @@ func runC20Case(op string, reply []byte) string {
 				out = pkt(fxpStatus, id).u32(0).str("").str("").b
 			case fxpReaddir, fxpRead:
 				out = pkt(fxpStatus, id).u32(1).str("EOF").str("").b
+			case fxpRemove:
+				if op == "remove" {
+					out = pkt(fxpStatus, id).u32(4).str("is a directory").str("").b
+				} else {
+					out = pkt(fxpStatus, id).u32(0).str("").str("").b
+				}
 			case fxpStat, fxpLstat, fxpFstat:
-				out = pkt(fxpAttrs, id).raw(validAttrsBody()).b
+				if op == "mkdirallmk" {
+					out = pkt(fxpStatus, id).u32(2).str("no such file").str("").b
+				} else {
+					out = pkt(fxpAttrs, id).raw(validAttrsBody()).b
+				}
 			default:
 				out = pkt(fxpStatus, id).u32(0).str("").str("").b
 			}
@@ -216,7 +242,7 @@ func runC20Case(op string, reply []byte) string {
 			}
 			b := make([]byte, 8)
 			n, err := f.ReadAt(b, 0)
-			res = fmt.Sprintf("n=%x;data=%s;err=%s", n, hexs(b[:n]), cliErrKind(err))
+			res = fmt.Sprintf("n=%x;data=%s;err=%s", n, hexs(b[:clampLen(n, len(b))]), cliErrKind(err))
 		case "readconc":
 			f, err := cl.Open("/x")
 			if err != nil {
@@ -235,6 +261,51 @@ func runC20Case(op string, reply []byte) string {
 			var buf bytes.Buffer
 			n, err := f.WriteTo(&buf)
 			res = fmt.Sprintf("n=%x;err=%s", n, cliErrKind(err))
+		default:
+			var err error
+			switch op {
+			case "remove", "removefirst":
+				err = cl.Remove("/x")
+			case "mkdirall", "mkdirallmk":
+				err = cl.MkdirAll("/a/b")
+			case "removeall":
+				err = cl.RemoveAll("/d")
+			case "realpath":
+				_, err = cl.RealPath("x")
+			case "mkdir":
+				err = cl.Mkdir("/m")
+			case "symlink":
+				err = cl.Symlink("/t", "/l")
+			case "chmod":
+				err = cl.Chmod("/x", 0o600)
+			case "posixrename":
+				err = cl.PosixRename("/a", "/b")
+			case "lstat":
+				_, err = cl.Lstat("/x")
+			case "glob":
+				_, err = cl.Glob("/d/*")
+			case "fstat", "truncatefile", "create":
+				var f *sftp.File
+				if op == "create" {
+					f, err = cl.Create("/c")
+				} else {
+					f, err = cl.Open("/x")
+				}
+				if err == nil && f != nil {
+					switch op {
+					case "fstat":
+						_, err = f.Stat()
+					case "truncatefile":
+						err = f.Truncate(3)
+					}
+					f.Close()
+				}
+			}
+			if err != nil {
+				res = "err:" + cliErrKind(err)
+			} else {
+				res = "val:ok"
+			}
 		}
 		resCh <- res
 	}()
@@ -277,7 +348,7 @@ func c20Handle(req string) string {
 }
 
 func runC20(c *Ctx) {
-	c.Rule("for every client operation (stat, open, readlink, readdir, rename, sequential read, statvfs, concurrent ReadAt, WriteTo): the valid reply cut at every byte, " +
+	c.Rule("for every client operation (stat, open, readlink, readdir, rename, sequential read, statvfs, concurrent ReadAt, WriteTo; and, judged by the crash/hang/follow-up/Close/allocation oracles only, Remove (the REMOVE and the RMDIR reply), MkdirAll (the STAT and the MKDIR reply), RemoveAll, RealPath, Mkdir, Symlink, Chmod, File.Truncate, PosixRename, Lstat, File.Stat, Create, Glob): the valid reply cut at every byte, " +
 		"every 4-byte window replaced by 0,1,n-1,n+1,2^20,2^31-1,2^32-1 and the multiples of 2^29 (counts whose size computation wraps), every other reply type substituted, random bytes; for stat and readdir additionally replies carrying extended attributes, mutated the same way; each case in a child process; " +
 		"non-trivial = reply that is not the valid one")
 	valid := map[string][]byte{
@@ -303,7 +374,9 @@ func runC20(c *Ctx) {
 		}(),
 	}
 	own := map[string]string{"stat": "attrs", "open": "handle", "readlink": "name1", "readdir": "names", "rename": "statusok", "read8": "data",
-		"statvfs": "statvfs", "readconc": "data", "writeto": "data"}
+		"statvfs": "statvfs", "readconc": "data", "writeto": "data",
+		"remove": "status", "removefirst": "status", "mkdirall": "attrs", "mkdirallmk": "statusok", "removeall": "attrs", "realpath": "name1", "mkdir": "statusok",
+		"symlink": "statusok", "chmod": "statusok", "truncatefile": "statusok", "posixrename": "statusok", "lstat": "attrs", "fstat": "attrs", "create": "handle", "glob": "handle"}
 	child, err := startChild("c20", 6000000)
 	if err != nil {
 		c.Diag("cannot start child: %v", err)
@@ -340,7 +413,7 @@ func runC20(c *Ctx) {
 				fmt.Sscanf(p[6:], "%d", &alloc)
 			}
 		}
-		if op != "readconc" && op != "writeto" {
+		if !c20Compound(op) {
 			c.Obs(n, res)
 		}
 		switch {
